@@ -19,7 +19,7 @@ import (
 func init() {
 	register(&Def{
 		ID: "C10",
-		Explanation: "Structural necessary conditions of 'parsers are total and bounded', decided over the parser-local code reachable from the registered decoders, selector compilation, the walk functions and ParsePath: " +
+		Explanation: "Structural necessary conditions of 'parsers are total and bounded', decided over the parser-local code reachable from the registered decoders, selector compilation, the walk functions and ParsePath:  (index, untrustedindex) elements of outside bytes are read only beyond a length test, and numbers taken from path segments or nodes index slices only where bounded on both sides." +
 			"every recursive cycle of a decoder passes a depth comparison that dominates the recursive call, which passes depth+k; every committing assembler call in the CBOR decoder is behind a budget decrement-and-test in its token epoch (decrement derived from the token's length for strings/bytes/keys); container size hints are constants or clamped and charged; " +
 			"untrusted 64-bit integers (token lengths, AsInt results) reach allocation sizes only behind a dominating bound; every explicit panic reachable in parser-local code is an exhaustive-switch default or a frozen contract entry; every decoder loop consumes input. " +
 			"This bounds the mechanisms; it does not measure allocation or prove absence of implicit panics.",
